@@ -14,7 +14,7 @@
                 APITooManyRequestsError) as e:
             if 429: retry_after := header "Retry-After" (truthy) ▸ _parse_retry_after(.)
                                | details.retryAfterSeconds (truthy) ▸ int(.) | None
-                    -- _parse_retry_after: int(float(v)) | HTTP-date ▸ max(0, int(when - now)) | None
+                    -- _parse_retry_after: int(float(v)) | HTTP-date ▸ max(0, ceil(when - now)) | None
                     if retry_after is not None and backoff is not None:
                         if enforce_retry_after or retry_after > backoff: backoff = retry_after
             if SSL-marker in str(e): raise APISessionClosed
@@ -103,14 +103,17 @@ def tickPerSec : Int := 1024
 def truncSec (x : Int) : Int :=
   if 0 ≤ x then (x / tickPerSec) * tickPerSec else -(((-x) / tickPerSec) * tickPerSec)
 
+/-- `math.ceil(x)` on a value given in ticks: whole seconds upwards, back in ticks. -/
+def ceilSec (x : Int) : Int := -(((-x) / tickPerSec) * tickPerSec)
+
 /-- The `retry_after` of a 429: the header first (any non-empty string is truthy, "0" included):
-    delay-seconds truncated, an HTTP-date as `max(0, int(when - now))`, anything else None;
+    delay-seconds truncated, an HTTP-date as `max(0, ceil(when - now))`, anything else None;
     only without a header `details.retryAfterSeconds` (truthy, so 0 counts as absent; details exist
     only when the body was a `Status` JSON). -/
 def retryAfter (r : Resp) : Option Int :=
   match r.hdr with
   | .secs h => some (truncSec h)
-  | .date d => some (if truncSec d < 0 then 0 else truncSec d)
+  | .date d => some (if ceilSec d < 0 then 0 else ceilSec d)
   | .garbage => none
   | .overflow => none
   | .absent =>
